@@ -87,6 +87,8 @@ def _check(ctx: Ctx) -> None:
     else:
         from ..linear import Normaliser
         nz = Normaliser()
+        blk = next((getattr(first_shift._parent, f) for f in ("body", "orelse") if first_shift in getattr(first_shift._parent, f, [])), [])
+        nz.run_block([x for x in blk[:blk.index(first_shift)] if isinstance(x, ast.Assign) and isinstance(x.targets[0], ast.Name)] if blk else [])
         if isinstance(first_shift, ast.AugAssign):
             delta = nz.norm(first_shift.value) if isinstance(first_shift.op, ast.Add) else -nz.norm(first_shift.value)
         else:
@@ -111,6 +113,11 @@ def _check(ctx: Ctx) -> None:
                       message="return value is not a simple flag", file=fi.file, node=fi.node)
     else:
         whiles = [n for n in ast.walk(loop) if isinstance(n, ast.While)]
+        # `flag = flag or <test>` / `flag |= <test>`: a different (accumulating) idiom, recognised but not judged
+        accumulating = [n for n in ast.walk(loop)
+                        if (isinstance(n, ast.Assign) and any(isinstance(t, ast.Name) and t.id == flag for t in n.targets)
+                            and any(isinstance(x, ast.Name) and x.id == flag for x in ast.walk(n.value)))
+                        or (isinstance(n, ast.AugAssign) and isinstance(n.target, ast.Name) and n.target.id == flag and isinstance(n.op, ast.BitOr))]
         lower = p.settings.get("NOTE_LOWER_BOUND")
         upper = p.settings.get("NOTE_UPPER_BOUND")
         kinds = {}
@@ -136,9 +143,13 @@ def _check(ctx: Ctx) -> None:
                           message=f"`{short(w)}`", file=fi.file, node=w)
                 sets = [n for n in ast.walk(w) if isinstance(n, ast.Assign) and any(isinstance(t, ast.Name) and t.id == flag for t in n.targets)
                         and isinstance(n.value, ast.Constant) and n.value.value is True]
-                ctx.check(bool(sets), "WRAP", f"{FN}: {k} wrap loop sets the flag", function=FN,
-                          construct=f"{k} wrap loop does not set the returned flag",
-                          message="a note moved by octaves would not be reported", file=fi.file, node=w)
+                if not sets and accumulating:
+                    ctx.undetermined("WRAP", f"{FN}: {k} wrap loop sets the flag",
+                                     f"the flag is accumulated by `{short(accumulating[0])}` instead of being set in the loop: idiom not judged")
+                else:
+                    ctx.check(bool(sets), "WRAP", f"{FN}: {k} wrap loop sets the flag", function=FN,
+                              construct=f"{k} wrap loop does not set the returned flag",
+                              message="a note moved by octaves would not be reported", file=fi.file, node=w)
             elif k is not None:
                 ctx.violation("WRAP", f"{FN}: wrap loop condition", function=FN, construct=f"wrap loop compares with the wrong strictness ({k})",
                               message=f"`{short(w.test)}`: a pitch exactly on the range bound is inside the range", file=fi.file, node=w)
@@ -161,9 +172,15 @@ def _check(ctx: Ctx) -> None:
                               f"{FN}: flag initialised False before the loop", function=FN,
                               construct="returned flag reset inside the message loop", message="an earlier octave move would be forgotten",
                               file=fi.file, node=n)
+                elif n in accumulating:
+                    ctx.undetermined("WRAP", f"{FN}: flag assignment `{short(n)}`", "accumulating assignment: idiom recognised, its test is not judged")
+                elif any(isinstance(a, (ast.For, ast.While)) for a in ancestors(n) if a is not fi.node):
+                    ctx.violation("WRAP", f"{FN}: flag assignment `{short(n)}`", function=FN,
+                                  construct="returned flag overwritten for every message",
+                                  message=f"`{short(n)}` replaces the flag inside the message loop: an octave move of an earlier note is forgotten "
+                                          f"(the result reflects only the last note)", file=fi.file, node=n)
                 else:
-                    ctx.violation("WRAP", f"{FN}: flag assignment `{short(n)}`", function=FN, construct="returned flag assigned a non-constant",
-                                  message=f"`{short(n)}`", file=fi.file, node=n)
+                    ctx.undetermined("WRAP", f"{FN}: flag assignment `{short(n)}`", "non-constant initial value: not judged")
 
     # --- FR (whole function, through the effects engine)
     eff = Effects(p)
